@@ -33,6 +33,10 @@ pub mod hist_store;
 #[path = "/verif/harness/hist_config.rs"]
 pub mod hist_config;
 
+#[cfg(all(not(kani), test))]
+#[path = "/verif/harness/hist_index.rs"]
+pub mod hist_index;
+
 #[path = "/verif/harness/c05.rs"]
 pub mod c05;
 
@@ -65,6 +69,10 @@ mod replay_entry {
             .unwrap_or_default();
         if module == "cweb" {
             super::cweb::replay_file();
+            return;
+        }
+        if module == "index" {
+            super::hist_index::replay_file();
             return;
         }
         if module == "config" {
